@@ -165,6 +165,11 @@ func (e *Engine) assumeTypedAt(st *State, v Val, bound string) {
 	case SInt:
 		if mx, ok := uintMax(v.Typ); ok {
 			st.assume(fmt.Sprintf("(and (<= 0 %s) (<= %s %s))", v.T, v.T, mx))
+		} else if len(st.frames) > 0 && st.top().fc != nil && st.top().fc.Wraparound {
+			// two's-complement mode: signed values are machine integers
+			if half, _, ok := sintRange(v.Typ); ok {
+				st.assume(fmt.Sprintf("(and (<= (- %s) %s) (< %s %s))", half, v.T, v.T, half))
+			}
 		}
 	case SRef:
 		st.assume(fmt.Sprintf("(or (= %s rnil) (< (stamp %s) %s))", v.T, v.T, bound))
